@@ -118,6 +118,9 @@ type seg struct {
 	markerAtStartup bool
 	// torn junk only: the record whose first bytes these are, when its whole frame is known
 	tornOf *rec
+	// flip junk only: a whole frame whose length field is intact (the changed byte is in the checksum or the payload):
+	// a decoder that skips it is positioned exactly on the next record
+	framed bool
 }
 
 func (s seg) size() int {
@@ -604,12 +607,23 @@ func (s *sim) search(h int64, ignore bool, when string) (found bool, term error,
 		}
 	}
 	what := fmt.Sprintf("SearchForEndHeight(%d, ignoreCorruption=%v) %s", h, ignore, when)
+	// Damaged records that keep the framing (one changed byte in a checksum or a payload) do not hide the records
+	// behind them: skipping corrupted entries is what IgnoreDataCorruptionErrors is for, so that search must find
+	// every intact marker; the strict search must find it or report the corruption, never answer "not there".
+	behindDamage := len(occ) > 0 && !clean && framedDamageOnly(items)
+	if behindDamage {
+		s.class(fmt.Sprintf("search:marker-on-disk-with-framed-damage/ignore=%v", ignore))
+	}
 	if err != nil {
 		if rd != nil || found {
 			s.fail("%s: error %v together with found=%v reader=%v", what, err, found, rd != nil)
 		}
 		if clean && !s.tainted {
 			s.fail("%s: (3) the log is intact but the search failed: %v", what, err)
+		}
+		if behindDamage && ignore {
+			s.fail("%s: (3) the marker (record #%d) is intact on disk and every damaged record keeps the framing, but the search that ignores corrupted entries failed: %v",
+				what, items[occ[0]].r.seq, err)
 		}
 		s.class("search:error")
 		return false, nil, err
@@ -620,6 +634,10 @@ func (s *sim) search(h int64, ignore bool, when string) (found bool, term error,
 		}
 		if len(occ) > 0 && clean && !s.tainted {
 			s.fail("%s: (3) marker was written (record #%d), is on disk and was not discarded, but the search did not find it", what, items[occ[0]].r.seq)
+		}
+		if behindDamage {
+			s.fail("%s: (3) marker was written (record #%d), is intact on disk and was not discarded; the only damage in the log is records with one changed byte "+
+				"in checksum or payload (framing intact), yet the search answers 'not found' without an error", what, items[occ[0]].r.seq)
 		}
 		s.class("search:notfound")
 		return false, nil, nil
@@ -654,6 +672,28 @@ func (s *sim) search(h int64, ignore bool, when string) (found bool, term error,
 	}
 	s.class("search:found")
 	return true, term, nil
+}
+
+// framedDamageOnly: everything on disk that is not a record is a whole frame with one changed byte outside its length
+// field, and the heights of the intact markers (other than 0) increase along the log, as the search's early exit
+// assumes.
+func framedDamageOnly(items []item) bool {
+	last := int64(0)
+	for _, it := range items {
+		if it.junk != nil {
+			if it.junk.why != "flip" || !it.junk.framed {
+				return false
+			}
+			continue
+		}
+		if eh, ok := it.r.endHeight(); ok && eh != 0 {
+			if eh <= last {
+				return false
+			}
+			last = eh
+		}
+	}
+	return true
 }
 
 // ---- the start-up protocol of consensus.State.OnStart, WAL part ----
@@ -1792,7 +1832,7 @@ func (s *sim) flip(t *rapid.T) {
 	}
 	j := append([]byte(nil), b[tg.off:tg.off+size]...)
 	if sg.r != nil {
-		tg.f.segs[tg.i] = seg{junk: j, why: "flip"}
+		tg.f.segs[tg.i] = seg{junk: j, why: "flip", framed: pos < 4 || pos >= 8}
 	} else {
 		tg.f.segs[tg.i].junk = j
 		tg.f.segs[tg.i].why = "flip"
